@@ -9504,3 +9504,91 @@ func ruleNilReachesNoAbortingDefault(c *core.Ctx) {
 		c.Undecided(rule, "anchor/type switches scanned", 0, fmt.Sprintf("only %d type switches with an aborting default found in pkg/dsl", scanned))
 	}
 }
+
+// P4f (C10): the nil-able fields. TypeCase.Type is nil for the null case, GeneralizedType.Dimensionality for a scalar,
+// SimpleType.ResolvedDefinition for a reference that did not resolve, EnumDefinition.BaseType when no base is given. A
+// type switch directly over one of these fields (or a local that is its only definition) whose default aborts has a
+// `case nil`, or the function has tested that expression against nil in front of the switch.
+func ruleNilableFieldsBeforeAbortingDefault(c *core.Ctx) {
+	const rule = "P4f"
+	c.Rule(rule, "module: a type switch with an aborting default directly over TypeCase.Type / GeneralizedType.Dimensionality / SimpleType.ResolvedDefinition / EnumDefinition.BaseType has a `case nil` or follows a nil test of that expression", 5)
+	nilable := map[string]bool{"TypeCase.Type": true, "GeneralizedType.Dimensionality": true, "SimpleType.ResolvedDefinition": true, "EnumDefinition.BaseType": true}
+	for _, d := range c.AllDecls() {
+		p := c.DeclPkg(d)
+		if p == nil || d.Body == nil || c.IsTestFile(d.Pos()) || !strings.HasPrefix(p.PkgPath, core.Mod) {
+			continue
+		}
+		info := p.TypesInfo
+		n := 0
+		ast.Inspect(d.Body, func(nn ast.Node) bool {
+			ts, ok := nn.(*ast.TypeSwitchStmt)
+			if !ok {
+				return true
+			}
+			var subj ast.Expr
+			switch a := ts.Assign.(type) {
+			case *ast.AssignStmt:
+				subj = a.Rhs[0].(*ast.TypeAssertExpr).X
+			case *ast.ExprStmt:
+				subj = a.X.(*ast.TypeAssertExpr).X
+			}
+			e := ast.Unparen(subj)
+			if id, ok := e.(*ast.Ident); ok {
+				if r := singleDefRHS(info, d.Body, id); r != ast.Expr(id) {
+					e = ast.Unparen(r)
+				}
+			}
+			se, ok := e.(*ast.SelectorExpr)
+			if !ok {
+				return true
+			}
+			k, ok := fieldOf(info, se)
+			if !ok || !nilable[k.typ+"."+k.field] {
+				return true
+			}
+			hasNil, aborting := false, false
+			for _, cl := range ts.Body.List {
+				cc := cl.(*ast.CaseClause)
+				for _, x := range cc.List {
+					if isNilIdent(x) {
+						hasNil = true
+					}
+				}
+				if cc.List == nil {
+					for _, s := range cc.Body {
+						if es, ok := s.(*ast.ExprStmt); ok {
+							if ce, ok := es.X.(*ast.CallExpr); ok && core.NoReturn(info, ce) {
+								aborting = true
+							}
+						}
+					}
+				}
+			}
+			if !aborting {
+				return true
+			}
+			n++
+			key := fmt.Sprintf("%s/switch %s.(type)#%d", c.FuncName(d), types.ExprString(subj), n)
+			tested := false
+			want := types.ExprString(se)
+			ast.Inspect(d.Body, func(m ast.Node) bool {
+				be, ok := m.(*ast.BinaryExpr)
+				if !ok || be.Pos() >= ts.Pos() || (be.Op != token.EQL && be.Op != token.NEQ) {
+					return true
+				}
+				if isNilIdent(be.Y) && (types.ExprString(ast.Unparen(be.X)) == want || types.ExprString(ast.Unparen(be.X)) == types.ExprString(subj)) {
+					tested = true
+				}
+				return true
+			})
+			if !hasNil && !tested && k.typ+"."+k.field == "SimpleType.ResolvedDefinition" && strings.Contains(p.PkgPath, "/internal/") && !strings.HasSuffix(p.PkgPath, "/internal/cmd") {
+				// the back ends run on a validated environment only (rule W1); resolveTypes reports every reference it cannot resolve
+				c.OK(rule, key, ts.Pos(), "back end: every reference of a validated environment is resolved (rules W1, P0)")
+				return true
+			}
+			c.Check(hasNil || tested, rule, key, ts.Pos(), "nil is handled",
+				fmt.Sprintf("`%s` (%s.%s) can be nil and the type switch over it has an aborting default, no `case nil` and no nil test in front of it", types.ExprString(subj), k.typ, k.field))
+			return true
+		})
+	}
+}
